@@ -88,6 +88,20 @@ def httpRun : Handler := fun j => do
         ("state", httpStName s'.st), ("closed", s'.closed)])
   pure (Json.arr outs)
 
+/-- client view predicted from the application's messages: {"init":…, "msgs":[…]} -/
+def httpView : Handler := fun j => do
+  let s ← httpInit (← j.getObjVal? "init")
+  let msgs ← (← getArr j "msgs").toList.mapM httpMsgOfJson
+  let (s', evs) := Http.feed s msgs
+  let heads := evs.filterMap (fun e => match e with | .response st hs => some (st, hs) | _ => none)
+  let body := (evs.filterMap (fun e => match e with | .body d => some d | _ => none)).flatten
+  let ends := (evs.filter (fun e => e == .endBody)).length
+  let trailers := evs.filterMap (fun e => match e with | .trailers hs => some (jsonOfHeaders hs) | _ => none)
+  let infos := evs.filterMap (fun e => match e with | .info st hs => some (Json.arr #[toJson st, jsonOfHeaders hs]) | _ => none)
+  pure (Json.mkObj [("heads", Json.arr (heads.map (fun (st, hs) => Json.arr #[toJson st, jsonOfHeaders hs])).toArray),
+    ("body", jsonOfBytes body), ("ends", toJson ends), ("trailers", Json.arr trailers.toArray), ("infos", Json.arr infos.toArray),
+    ("state", httpStName s'.st)])
+
 /-! ### WebSocket -/
 def payloadJson : Ws.Payload → Json
   | .text cs => Json.mkObj [("text", jsonOfChars cs)]
@@ -177,6 +191,6 @@ def wsRun : Handler := fun j => do
           ("error", optJson (fun e => Json.str (errName e)) err), ("state", wsStName s'.st), ("closed", s'.closed)])
     pure (Json.arr outs)
 
-def handlers : List (String × Handler) := [("stream.http", httpRun), ("stream.ws", wsRun)]
+def handlers : List (String × Handler) := [("stream.http", httpRun), ("stream.http_view", httpView), ("stream.ws", wsRun)]
 
 end Driver.Streams
